@@ -24,7 +24,24 @@ type etree struct {
 
 func (t *etree) isLeaf() bool { return t.Kids == nil }
 
+// wrapLeaf is a leaf that WRAPS (Unwrap() error) another error - a join of two or a single one: to errors.Join and to All it
+// is a leaf like any other; what it wraps is not part of the tree (lesson of seeded change C19-q: joins recognised with
+// errors.As, which also looks down Unwrap() error chains)
+type wrapLeaf struct {
+	id    int
+	inner error
+}
+
+func (w *wrapLeaf) Error() string { return "ctx-" + strconv.Itoa(w.id) + ": " + w.inner.Error() }
+func (w *wrapLeaf) Unwrap() error { return w.inner }
+
 func leafErr(id int) error {
+	switch id % 5 {
+	case 3:
+		return &wrapLeaf{id, errors.Join(&cfgerrors.UnacceptableMethodError{Value: "inner-a", Reason: "invalid"}, &cfgerrors.UnacceptableOriginPatternError{Value: "inner-b", Reason: "invalid"})}
+	case 4:
+		return &wrapLeaf{id, &cfgerrors.UnacceptableHeaderNameError{Value: "inner-c", Type: "request", Reason: "invalid"}}
+	}
 	switch id % 3 {
 	case 0:
 		return &cfgerrors.UnacceptableMethodError{Value: "leaf-" + strconv.Itoa(id), Reason: "invalid"}
@@ -37,6 +54,8 @@ func leafErr(id int) error {
 func leafID(e error) int {
 	var v string
 	switch e := e.(type) {
+	case *wrapLeaf:
+		return e.id
 	case *cfgerrors.UnacceptableMethodError:
 		v = e.Value
 	case *cfgerrors.UnacceptableOriginPatternError:
